@@ -85,10 +85,49 @@ def functional_update(path, lp):
     return out
 
 
-def record_stores(path, lp, rec):
+def constructed_update(path, lp, rec, ob=None, fn=None):
+    """``record = Record(prefix=record.prefix, .., uri_prefix=new, uri_prefix_synonyms=..)``: the upgraded record built
+    through the constructor from the fields of the old one.  The URI-side keywords are replayed as pseudo stores on
+    the old record (list field first: all values read the OLD record); every other field must be handed over as it
+    is - a field left out falls back to its default, i.e. is lost."""
+    from ..summ import Ev
+
+    for ev in path.events:
+        x = ev.b if ev.kind == "bind" else (ev.a[2][0] if ev.kind == "expr" and op(ev.a) == "call" and callee_name(ev.a) in ("append", "add") and ev.a[2] else None)
+        if not (op(x) == "call" and op(x[1]) == "cls" and x[1][1].endswith(".Record") and not x[2]):
+            continue
+        kw = dict(x[3])
+        old = rec if rec is not None else lp.a
+        if not any(y == old for v in kw.values() for y in subterms(v)):
+            continue
+        out = []
+        for f in ("uri_prefix_synonyms", "uri_prefix"):
+            if f in kw:
+                out.append(Ev("store", ev.line, ("attr", old, f), kw[f]))
+        if ob is not None:
+            for f in ("prefix", "prefix_synonyms", "pattern"):
+                v = kw.get(f)
+                keeps = v == ("attr", old, f) or (op(v) == "call" and v[1] in (("builtin", "list"), ("builtin", "sorted")) and v[2] == (("attr", old, f),))
+                if not keeps:
+                    ob.violate(
+                        fn.qualname,
+                        where(fn, ev.line),
+                        f"the upgraded record is built with Record(...) and `{f}` is {'not passed on' if v is None else 'set to `' + show(v)[:40] + '`'}: the record loses its {f} (a field that is left out falls back to its default)",
+                        witness="a record with CURIE prefix synonyms comes out of remap_uri_prefixes without them",
+                        detail=f"frame-dropped:{f}",
+                    )
+        if out:
+            return old, out
+    return None
+
+
+def record_stores(path, lp, rec, ob=None, fn=None):
     stores = [ev for ev in path.events if ev.kind == "store" and op(ev.a) == "attr" and ev.a[1] == rec]
     if stores:
         return rec, stores
+    cu = constructed_update(path, lp, rec, ob, fn)
+    if cu is not None:
+        return cu
     fu = functional_update(path, lp)
     return (lp.a, fu) if fu else (rec, [])
 
@@ -113,7 +152,7 @@ def d1(cx: Cx, ob: Ob) -> None:
         n_update = 0
         for p in lp.body:
             rec = record_term(p, lp)
-            rec, stores = record_stores(p, lp, rec)
+            rec, stores = record_stores(p, lp, rec, ob, fn)
             if not stores:
                 continue
             n_update += 1
